@@ -47,6 +47,9 @@ FAMILIES["joe_c07"] = {"impl_family": "joe", "timeout_quick": 300, "timeout_thor
 FAMILIES["joe_c03"] = {"impl_family": "joe", "timeout_quick": 300, "timeout_thorough": 3000}
 FAMILIES["joe_c17"] = {"impl_family": "joe", "timeout_quick": 300, "timeout_thorough": 3000}
 FAMILIES["joe_c04"] = {"impl_family": "joe_replay", "timeout_quick": 300, "timeout_thorough": 3000}
+# C03 on the resume scenarios (the REAL replayers make the Send / Flush calls of a replay on Joe's goroutine): the C03 monitor -
+# "every Send is followed by a Flush before Joe goes idle" counts the Sends of a replay too - on the joe_replay scenarios
+FAMILIES["joe_c03_resume"] = {"impl_family": "joe_replay", "model_family": "joe_c03", "timeout_quick": 300, "timeout_thorough": 3000}
 
 PROPS["C06"] = {
     "families": ["joe_c06"],
@@ -88,7 +91,7 @@ PROPS["C07"] = {
 }
 
 PROPS["C03"] = {
-    "families": ["joe_c03"],
+    "families": ["joe_c03", "joe_c03_resume"],
     "level_text": (
         "Proof on the LTS of joe.go, all label sequences: for every subscriber i the Send calls the fan-out made on its writer are exactly "
         "filter (topics intersect) (order[reg_i .. upto_i)) - the messages of the single global accept order between its registration and its "
